@@ -4,6 +4,16 @@ import Kio.Proofs.Float
 /-!
 # C02 — encoder output is the Kafka wire format, byte for byte
 `Spec.enc` (Kio/Spec/Wire.lean) is the independent statement of the format.
+
+-- FULL STATEMENT (not proved): theorem impl_eq_spec (env : Env) (ht : env.time = TimeCfg.repaired)
+--     (s : Schema) (hwf : s.wf env = true) (v : Value) (hv : s.valueOk env v = true) :
+--     (enc env s v).toOption = Spec.enc s v
+Reason: it is false as it stands (`impl_eq_spec_counterexample`).  Model and specification differ
+in two situations, both outside the generated classes:
+* a *tagged* field annotated `tuple[E, ...] | None`, holding `None` with a non-`None` default: the
+  encoder writes a null array, `Spec.fieldBytes` has no encoding (`Schema.tagArrOk` excludes it);
+* a class with `2^35` tagged fields, all set: `uvarint(len(...))` raises in the encoder, the
+  specification does not bound the count (`Schema.fewFields` excludes it).
 -/
 namespace Kio.C02
 open Kio
@@ -14,13 +24,38 @@ theorem float_exact : FloatExact := by
   rw [abs_lt]
   constructor <;> omega
 
-/-- **C02**: on every coherent class and well-typed canonical instance the encoder emits exactly
-    the bytes the specification prescribes, and raises exactly where there is no encoding -/
+/-- **C02, success direction**: on every coherent class and well-typed canonical instance, the
+    bytes the encoder emits are exactly the bytes the specification prescribes -/
+theorem impl_eq_spec_ok (env : Env) (ht : env.time = TimeCfg.repaired) (s : Schema)
+    (hwf : s.wf env = true) (hdom : s.tagArrOk = true) (v : Value) (hv : s.valueOk env v = true)
+    (bs : Bytes) (h : enc env s v = .ok bs) : Spec.enc s v = some bs := by
+  obtain ⟨_, hw⟩ := Kio.wf_buildable env s hwf
+  unfold enc at h; rw [hw] at h
+  exact Kio.Schema.write_eq_spec_ok env ht float_exact s hwf hdom v hv bs h
+
+/-- **C02, converse**: the encoder raises only where there is no encoding -/
+theorem spec_eq_impl_ok (env : Env) (ht : env.time = TimeCfg.repaired) (s : Schema)
+    (hwf : s.wf env = true) (hfew : s.fewFields = true) (v : Value) (hv : s.valueOk env v = true)
+    (bs : Bytes) (h : Spec.enc s v = some bs) : enc env s v = .ok bs := by
+  obtain ⟨_, hw⟩ := Kio.wf_buildable env s hwf
+  unfold enc; rw [hw]
+  exact Kio.Schema.spec_eq_write_ok env ht float_exact s hwf hfew v hv bs h
+
+/-- **C02**: on every coherent class (without tagged nullable entity arrays, with fewer than
+    `2^35` fields per class) and well-typed canonical instance the encoder emits exactly the bytes
+    the specification prescribes, and raises exactly where there is no encoding -/
 theorem impl_eq_spec (env : Env) (ht : env.time = TimeCfg.repaired) (s : Schema)
-    (hwf : s.wf env = true) (v : Value) (hv : s.valueOk env v = true) :
+    (hwf : s.wf env = true) (hdom : s.tagArrOk = true) (hfew : s.fewFields = true)
+    (v : Value) (hv : s.valueOk env v = true) :
     (enc env s v).toOption = Spec.enc s v := by
   obtain ⟨_, hw⟩ := Kio.wf_buildable env s hwf
   unfold enc; rw [hw]
-  exact Kio.Schema.write_eq_spec env ht float_exact s hwf v hv
+  exact Kio.Schema.write_eq_spec env ht float_exact s hwf hdom hfew v hv
+
+/-- without `tagArrOk` the statement fails -/
+theorem impl_eq_spec_counterexample :
+    ∃ (env : Env) (s : Schema) (v : Value), env.time = TimeCfg.repaired ∧ s.wf env = true ∧
+      s.valueOk env v = true ∧ (s.write env v).toOption ≠ Spec.enc s v :=
+  Kio.Schema.write_eq_spec_counterexample
 
 end Kio.C02
